@@ -4,6 +4,6 @@ ValidMap == [s \in Sections |-> {"v1", "v2"}]
 InvalidMap == [s \in Sections |-> {"i1"}]
 SimValid == [s \in Sections |-> CASE s = "schedule" -> {"v1", "v2", "v3", "v4", "v5", "v6"} [] s = "replication" -> {"v1", "v2", "v3", "v4"}
                                   [] s = "pdserver" -> {"v1", "v2"} [] s = "version" -> {"v1", "v2"} [] OTHER -> {"v1", "v2"}]
-SimInvalid == [s \in Sections |-> CASE s = "schedule" -> {"i1", "i2", "i3", "i4", "i5", "i6", "i7"} [] s = "replication" -> {"i1"}
+SimInvalid == [s \in Sections |-> CASE s = "schedule" -> {"i1", "i2", "i3", "i4", "i5", "i6", "i7", "i8"} [] s = "replication" -> {"i1"}
                                     [] s = "pdserver" -> {"i1"} [] s = "version" -> {"i1"} [] OTHER -> {"i1"}]
 ====
